@@ -93,10 +93,13 @@ class Fn:
 
 
 class Struct:
-    def __init__(self, file, name, derive=None, extra='', dyn_param=None, drop_fields=()):
+    def __init__(self, file, name, derive=None, extra='', dyn_param=None, drop_fields=(), structural=True, require_derive=()):
         # dyn_param: name of the type parameter that replaces a field of type `Arc<dyn Fn..>` (rule E2)
         self.file, self.name, self.derive, self.extra, self.dyn_param = file, name, derive, extra, dyn_param
         self.drop_fields = drop_fields
+        self.structural = structural
+        # derives that MUST be present on the real item and must not be replaced by a hand-written impl in the same file
+        self.require_derive = require_derive
 
 
 class Enum:
@@ -647,7 +650,12 @@ class Extractor:
         keep = [d for d in derives if d in ('Clone', 'Copy', 'PartialEq', 'Eq', 'PartialOrd', 'Ord', 'Hash', 'Default')]
         if sdef.derive is not None:
             keep = [d for d in keep if d in sdef.derive]
-        if 'PartialEq' in keep:
+        for rd in sdef.require_derive:
+            if rd not in derives:
+                raise ExtractError('struct %s (%s) no longer derives %s: the contracts assume the derived, field-wise implementation' % (sdef.name, sdef.file, rd))
+            if re.search(r'impl\s+(?:std::hash::|core::hash::|std::cmp::|core::cmp::)?%s\s+for\s+%s\b' % (rd, sdef.name), text):
+                raise ExtractError('struct %s (%s) has a hand-written impl of %s' % (sdef.name, sdef.file, rd))
+        if 'PartialEq' in keep and sdef.structural:
             keep.append('Structural')
         body = text[toks[kw].s:toks[e - 1].e]
         # fields -> pub
